@@ -55,6 +55,13 @@ fn replay(prop: &str, hist: &[Op]) -> Result<(), (usize, String, String)> {
             }
         }
     }
+    if prop == "C16" || prop == "any" {
+        // consuming the change set yields every accumulated amount exactly once, paired with its entity
+        let entities = world.entities();
+        let got: Vec<(u32, Vec<u8>)> = (&*entities, cs).join().map(|(en, c)| (en.id(), c.0)).collect();
+        let want: Vec<(u32, Vec<u8>)> = model.iter().map(|(e, v)| (ents[*e].id(), v.clone())).collect();
+        if got != want { return Err((hist.len().saturating_sub(1), "C16".into(), format!("consuming the change set yields {:?}, arrival-order accumulation is {:?}", got, want))); }
+    }
     Ok(())
 }
 fn ops() -> Vec<Op> {
